@@ -594,3 +594,78 @@ pub fn texts(rng: &mut Rng, thorough: bool, out: &mut Vec<Input>) {
 		out.push(txt(K_DESC, "descriptor-targeted", format!("descriptor: {what}"), v));
 	}
 }
+
+// ------------------------------------------------------------------ hand-assembled valid bases
+/// valid classes for features the javac corpus does not contain; they are mutated like the corpus
+pub fn assembled_bases() -> Vec<(String, Vec<u8>)> {
+	let mut v = vec![];
+	// every instruction form in one method, old StackMap attribute, code type annotations of every target
+	v.push(("assembled: all instruction forms + StackMap + code type annotations".to_string(), one_method_class(|p| {
+		let k = p.int(5); let l = p.long(7); let s = p.string("s"); let c = p.class("java/lang/String");
+		let f = p.fieldref("T", "f", "I"); let m = p.methodref("T", "m", "()V");
+		let im = { let a = p.class("java/lang/Runnable"); let b = p.nat("run", "()V"); p.idx2(11, a, b) };
+		let arr = p.class("[[I");
+		let mut code: Vec<u8> = vec![];
+		code.extend_from_slice(&[0x12, k as u8, 0x57]);                       // ldc, pop
+		code.push(0x13); u16be(&mut code, s); code.push(0x57);                // ldc_w, pop
+		code.push(0x14); u16be(&mut code, l); code.push(0x58);                // ldc2_w, pop2
+		code.extend_from_slice(&[0x10, 1, 0x11, 1, 0, 0x57, 0x57]);           // bipush sipush pop pop
+		code.extend_from_slice(&[0x15, 1, 0x36, 2, 0x84, 1, 5]);              // iload istore iinc
+		code.extend_from_slice(&[0xc4, 0x15, 1, 0, 0xc4, 0x36, 1, 1, 0xc4, 0x84, 1, 2, 0, 9]); // wide forms
+		code.push(0xb2); u16be(&mut code, f); code.push(0x57);                // getstatic pop
+		code.push(0xb8); u16be(&mut code, m);                                 // invokestatic
+		code.extend_from_slice(&[0x01]); code.push(0xb9); u16be(&mut code, im); code.extend_from_slice(&[1, 0]); // aconst_null invokeinterface
+		code.push(0xbb); u16be(&mut code, c); code.push(0x57);                // new pop
+		code.extend_from_slice(&[0x04, 0xbc, 10, 0x57]);                      // iconst_1 newarray int pop
+		code.extend_from_slice(&[0x04, 0x04]); code.push(0xc5); u16be(&mut code, arr); code.extend_from_slice(&[2, 0x57]); // multianewarray pop
+		code.extend_from_slice(&[0x01]); code.push(0xc0); u16be(&mut code, c); code.push(0x57); // checkcast
+		let here = code.len(); code.extend_from_slice(&[0x03, 0x99, 0, 4, 0x00]); let _ = here;   // iconst_0 ifeq +4 nop
+		code.extend_from_slice(&[0xa7, 0, 3]);                                // goto +3
+		code.push(0xc8); i32be(&mut code, 5);                                 // goto_w +5
+		code.extend_from_slice(&[0x01, 0xc6, 0, 3]);                          // aconst_null ifnull +3
+		// tableswitch
+		code.push(0x03); let pos = code.len(); code.push(0xaa); while code.len() % 4 != 0 { code.push(0); }
+		let table_len = (4 - (pos + 1) % 4) % 4 + 12 + 8 + 1;
+		i32be(&mut code, table_len as i32); i32be(&mut code, 0); i32be(&mut code, 1); i32be(&mut code, table_len as i32); i32be(&mut code, table_len as i32);
+		// lookupswitch
+		code.push(0x03); let pos = code.len(); code.push(0xab); while code.len() % 4 != 0 { code.push(0); }
+		let ls_len = (4 - (pos + 1) % 4) % 4 + 8 + 16 + 1;
+		i32be(&mut code, ls_len as i32); i32be(&mut code, 2); i32be(&mut code, -1); i32be(&mut code, ls_len as i32); i32be(&mut code, 7); i32be(&mut code, ls_len as i32);
+		// jsr / ret
+		code.extend_from_slice(&[0xa8, 0, 4, 0xb1, 0x3a, 3, 0xa9, 3]);         // jsr +4; return; astore 3; ret 3
+		let n = code.len() as u16;
+		let sm = p.utf8("StackMap");
+		let mut b = vec![]; u16be(&mut b, 2);
+		u16be(&mut b, 3); u16be(&mut b, 2); b.push(1); b.push(7); u16be(&mut b, c); u16be(&mut b, 1); b.push(8); u16be(&mut b, 0);
+		u16be(&mut b, 0); u16be(&mut b, 0); u16be(&mut b, 0);
+		let ta = p.utf8("RuntimeVisibleTypeAnnotations"); let ty = p.utf8("LA;"); let el = p.utf8("v");
+		let mut t = vec![]; let targets: Vec<Vec<u8>> = vec![
+			{ let mut x = vec![0x40]; u16be(&mut x, 1); u16be(&mut x, 0); u16be(&mut x, n); u16be(&mut x, 1); x },
+			{ let mut x = vec![0x41]; u16be(&mut x, 1); u16be(&mut x, 3); u16be(&mut x, 2); u16be(&mut x, 2); x },
+			{ let mut x = vec![0x42]; u16be(&mut x, 0); x },
+			{ let mut x = vec![0x43]; u16be(&mut x, 0); x }, { let mut x = vec![0x44]; u16be(&mut x, 3); x }, { let mut x = vec![0x45]; u16be(&mut x, 0); x }, { let mut x = vec![0x46]; u16be(&mut x, 0); x },
+			{ let mut x = vec![0x47]; u16be(&mut x, 0); x.push(0); x }, { let mut x = vec![0x48]; u16be(&mut x, 0); x.push(1); x }, { let mut x = vec![0x49]; u16be(&mut x, 0); x.push(0); x },
+			{ let mut x = vec![0x4A]; u16be(&mut x, 0); x.push(0); x }, { let mut x = vec![0x4B]; u16be(&mut x, 0); x.push(0); x },
+		];
+		u16be(&mut t, targets.len() as u16);
+		for (i, tg) in targets.iter().enumerate() {
+			t.extend_from_slice(tg);
+			if i % 2 == 0 { t.extend_from_slice(&[2, 0, 0, 3, 1]); } else { t.push(0); }
+			u16be(&mut t, ty); u16be(&mut t, 1); u16be(&mut t, el); t.push(b'I'); u16be(&mut t, k);
+		}
+		let lnt = p.utf8("LineNumberTable"); let mut ln = vec![]; u16be(&mut ln, 2); u16be(&mut ln, 0); u16be(&mut ln, 10); u16be(&mut ln, 3); u16be(&mut ln, 11);
+		(code, vec![(0, 3, 3, 0), (0, 3, 5, c)], vec![attr(sm, &b), attr(ta, &t), attr(lnt, &ln)])
+	}, |p| {
+		let sde = p.utf8("SourceDebugExtension"); let em = p.utf8("EnclosingMethod"); let t = p.class("T"); let nat = p.nat("m", "()V");
+		let mut e = vec![]; u16be(&mut e, t); u16be(&mut e, nat);
+		let foo = p.utf8("Foo");
+		vec![attr(sde, b"SMAP\nx.java\nJava\n*E\n"), attr(em, &e), attr(foo, &[1, 2, 3])]
+	})));
+	// nested dynamic constants (valid, acyclic, shared) through ldc and invokedynamic
+	v.push(("assembled: nested dynamic constants (ldc)".to_string(), bootstrap_class(&[vec![1, usize::MAX, 2], vec![2, 2], vec![usize::MAX]], 0, false)));
+	v.push(("assembled: nested dynamic constants (invokedynamic)".to_string(), bootstrap_class(&[vec![1, usize::MAX, 2], vec![2, 2], vec![usize::MAX]], 0, true)));
+	v.push(("assembled: StackMapTable of extended frames".to_string(), stackmap_class(40, &[3, 4, 0, 9])));
+	v.push(("assembled: annotation with nested arrays".to_string(), deep_annotation_class("RuntimeVisibleAnnotations", 5, false)));
+	v.push(("assembled: annotation with nested annotations".to_string(), deep_annotation_class("RuntimeInvisibleAnnotations", 5, true)));
+	v
+}
